@@ -544,6 +544,49 @@ def run(ctx):
                              "canoneq %s %s" % (a, b),
                              "deepeqnodes %s %s" % (a, b)], [e, e, e, nl],
                             lambda i, line, x, y: False)
+        # ---- the SAME pair of objects compared again and again while one
+        # side is edited in place (an answer remembered for a pair of
+        # objects would go stale)
+        if len(ctx.violations) < 3:
+            try:
+                ir1 = ms.load(gtirb, raw)
+            except (Exception, core.ImplTimeout):   # noqa
+                ir1 = None
+            chain = [p for p in perts if p[0] not in ("none",)]
+            rng.shuffle(chain)
+            applied = []
+            for name, fn in [("none", lambda x: None)] + chain[:5]:
+                if ir1 is None:
+                    break
+                try:
+                    fn(ir1)
+                except Exception:   # noqa
+                    continue
+                applied.append(name)
+                expect = C0 == canon_dump(gtirb, ir1)
+                try:
+                    with core.time_limit(30):
+                        got = (ir0.deep_eq(ir1), ir1.deep_eq(ir0))
+                except (Exception, core.ImplTimeout) as e:   # noqa
+                    got = ("raised", type(e).__name__)
+                ctx.evaluations += 1
+                ctx.count("chain:%d:%s" % (len(applied),
+                                           "equal" if expect else "differs"))
+                ctx.nontriv(("chain", len(applied), expect))
+                if got != (expect, expect):
+                    ctx.report({"kind": "deep-eq-verdict",
+                                "perturbation": "chain"},
+                               {"chain": applied, "expected": expect,
+                                "deep_eq": list(got),
+                                "file_hex": raw.hex()[:6000]},
+                               "the same two IRs compared again after the "
+                               "in-place edits %r: deep_eq gives %r, exact "
+                               "structural equality says %r"
+                               % (applied, got, expect))
+                    break
+                if node_level(ctx, gtirb, ir0, ir1, "chain:" + name,
+                              raw) is None:
+                    break
         if no < 2:
             ctx.sample({"perturbations": [p[0] for p in perts[:12]],
                         "nodes": len(V0)})
